@@ -1749,6 +1749,50 @@ func (t *trans) ifStmt(o *out, ind int, x *ast.IfStmt) {
 }
 
 func (t *trans) switchStmt(o *out, ind int, x *ast.SwitchStmt) {
+	if x.Init == nil && x.Tag == nil {
+		// a tag-less switch: the first case whose condition holds (no fall-through)
+		first := true
+		var deflt *ast.CaseClause
+		for _, c := range x.Body.List {
+			cc := c.(*ast.CaseClause)
+			for _, s := range cc.Body {
+				if b, ok := s.(*ast.BranchStmt); ok && b.Tok == token.FALLTHROUGH {
+					t.failf("%s: fallthrough", t.cur.name)
+				}
+			}
+			if cc.List == nil {
+				deflt = cc
+				continue
+			}
+			var conds []string
+			for _, v := range cc.List {
+				if t.hasEffect(v) {
+					t.failf("%s: switch case with effects", t.cur.name)
+				}
+				conds = append(conds, t.expr(v))
+			}
+			if !first {
+				o.line(ind, "else")
+				ind++
+			}
+			first = false
+			o.line(ind, "if "+strings.Join(conds, " || ")+" then")
+			if len(cc.Body) == 0 {
+				o.line(ind+1, "pure ()")
+			} else {
+				t.block(o, ind+1, &ast.BlockStmt{List: cc.Body})
+			}
+		}
+		if deflt != nil && len(deflt.Body) > 0 {
+			if first {
+				t.block(o, ind, &ast.BlockStmt{List: deflt.Body})
+			} else {
+				o.line(ind, "else")
+				t.block(o, ind+1, &ast.BlockStmt{List: deflt.Body})
+			}
+		}
+		return
+	}
 	if x.Init != nil || x.Tag == nil {
 		t.failf("%s: unsupported switch form", t.cur.name)
 		return
@@ -2402,6 +2446,7 @@ func translate(repo string, p *pkgFiles, outPath string) {
 		{fn: "HandlePutService", recv: "Server", mutRecv: true, trace: true},
 		{fn: "HandleDeleteService", recv: "Server", mutRecv: true, trace: true},
 		{fn: "HandlePutUser", recv: "Server", as: "putUserTail", trace: true, anchor: "user.Name = r.PathValue(\"id\")"},
+		{fn: "HandleIDPInitiated", recv: "Server", trace: true},
 		{fn: "GetServiceProvider", recv: "Server"},
 		{fn: "initializeServices", recv: "Server", mutRecv: true},
 		{fn: "GetSession", recv: "Server", as: "credentialGuards", trace: true, inside: "if r.Method == \"POST\" && r.PostForm.Get(\"user\") != \"\" {", until: "session := &saml.Session{"},
